@@ -1164,6 +1164,27 @@ pub async fn cut<T>(fut: impl Future<Output = T>, at_poll: usize) -> Option<T> {
     .await
 }
 
+/// Poll `fut` up to `polls` times and drop it right after the last of them returned Pending (without waiting
+/// to be woken again, unlike [`cut`]): a caller that sends its request and walks away. `None` if dropped.
+pub async fn poll_then_drop<T>(fut: impl Future<Output = T>, polls: usize) -> Option<T> {
+    let mut fut = Some(Box::pin(fut));
+    let mut done = 0usize;
+    std::future::poll_fn(move |cx| {
+        let Some(f) = fut.as_mut() else { return Poll::Ready(None) };
+        done += 1;
+        match f.as_mut().poll(cx) {
+            Poll::Ready(v) => Poll::Ready(Some(v)),
+            Poll::Pending if done >= polls => {
+                log(format!("DROP harness future after poll {done}"));
+                fut = None;
+                Poll::Ready(None)
+            }
+            Poll::Pending => Poll::Pending,
+        }
+    })
+    .await
+}
+
 /// Count how often a future is polled until it completes
 pub async fn count_polls<T>(fut: impl Future<Output = T>) -> (T, usize) {
     let mut fut = Box::pin(fut);
